@@ -63,7 +63,10 @@ pub fn replay_case(ctx: &mut Ctx, case: &J) -> Result<(), String> {
                     if b.len() < 12 {
                         return Err("short c15 case".into());
                     }
-                    fci_sdes::check_c15(ctx, b[1] == 205, b[0] & 0x1f, &b[12..])
+                    {
+                        let pad = if b[0] & 0x20 != 0 { (*b.last().unwrap() as usize).min(b.len() - 12) } else { 0 };
+                        fci_sdes::check_c15_padded(ctx, b[1] == 205, b[0] & 0x1f, &b[12..b.len() - pad], pad as u8)
+                    }
                 }
                 "c15-direct" => fci_sdes::check_c15_direct(ctx, &b),
                 "c18" => parsers::check_c18(ctx, &b),
